@@ -55,6 +55,10 @@ pub struct ErrSpec {
     pub message: Option<String>,
     /// (kind index, value); for session-id the value is a decimal u32
     pub info: Vec<(u8, String)>,
+    /// the abbreviated form Junos uses for CLI-layer messages: bit 0 = no `<error-type>`,
+    /// bit 1 = no `<error-tag>` (0 = the complete RFC 6241 form)
+    #[serde(default)]
+    pub abbreviated: u8,
 }
 
 impl ErrSpec {
@@ -67,13 +71,19 @@ impl ErrSpec {
             path: None,
             message: Some("statement creation failed".into()),
             info: vec![(1, "route-filter".into())],
+            abbreviated: 0,
         }
     }
 
     pub fn to_x(&self) -> X {
-        let mut e = X::container(Ns::Base, "rpc-error")
-            .kid(X::leaf(Ns::Base, "error-type", ERROR_TYPES[self.ty as usize % 4].0))
-            .kid(X::leaf(Ns::Base, "error-tag", ERROR_TAGS[self.tag as usize % 20].0))
+        let mut e = X::container(Ns::Base, "rpc-error");
+        if self.abbreviated & 1 == 0 {
+            e = e.kid(X::leaf(Ns::Base, "error-type", ERROR_TYPES[self.ty as usize % 4].0));
+        }
+        if self.abbreviated & 2 == 0 {
+            e = e.kid(X::leaf(Ns::Base, "error-tag", ERROR_TAGS[self.tag as usize % 20].0));
+        }
+        let mut e = e
             .kid(X::leaf(
                 Ns::Base,
                 "error-severity",
@@ -164,9 +174,10 @@ pub fn err_spec() -> impl Strategy<Value = ErrSpec> {
             }),
             0..3,
         ),
+        prop_oneof![9 => Just(0u8), 1 => 1u8..4],
     )
         .prop_map(
-            |(ty, tag, severity_error, app_tag, path, message, info)| ErrSpec {
+            |(ty, tag, severity_error, app_tag, path, message, info, abbreviated)| ErrSpec {
                 ty,
                 tag,
                 severity_error,
@@ -174,6 +185,7 @@ pub fn err_spec() -> impl Strategy<Value = ErrSpec> {
                 path,
                 message,
                 info,
+                abbreviated,
             },
         )
 }
